@@ -526,6 +526,28 @@ func c01R3(p *core.Prog, r *core.Report) {
 			r.Hold(rule, k, o.pos, "exempt: "+reason)
 			continue
 		}
+		// a helper that did not exist when the exemptions were confirmed inherits the
+		// exemption when every unlocked context reaches it through an exempt function
+		if f := p.Func(fn); f != nil && p.IsNewFunc(f) && len(o.unheldIn) > 0 {
+			via := ""
+			for _, ctx := range o.unheldIn {
+				found := ""
+				for ex := range c01R3Exempt {
+					if strings.Contains(ctx, "<- "+ex+"[") {
+						found = ex
+					}
+				}
+				if found == "" {
+					via = ""
+					break
+				}
+				via = found
+			}
+			if via != "" {
+				r.Hold(rule, k, o.pos, "exempt through its caller "+via+": "+c01R3Exempt[via])
+				continue
+			}
+		}
 		if len(o.unheldIn) == 0 {
 			r.Hold(rule, k, o.pos, "mutex held in every context")
 		} else {
